@@ -466,29 +466,59 @@ pub fn check(id: &str) -> Outcome {
 	}
 }
 
-/// Hard errors before a search: the tables load, every table path has an accessor, the generator's own blocks decode.
+/// Hard errors before a search: the tables load, every table path has an accessor (tried on hand-made values, so that
+/// nothing here depends on what the reader accepts), the generator's own blocks hold only values the spec gives a
+/// meaning to.
 pub fn selfcheck() -> Result<&'static Layouts, String> {
+	use peppi::game::{Bytes, EndMethod, PlayerType};
 	let lay = st::load()?;
 	sjis::selfcheck()?;
-	let len = lay.start.classes.last().ok_or("no Game Start length classes")?.1;
-	let elen = lay.end.classes.last().ok_or("no Game End length classes")?.1;
-	let end = end_block(lay, &mut Rng::new(1), elen);
-	let id = case_id(len, "HCDE", true, 0, &end);
-	let (file, start, _) = build(lay, &id)?;
-	let game = read_with(&file, None).map_err(|p| format!("(oracle) the self-check file makes the reader panic: {}", p))?.map_err(|e| format!("(oracle) the self-check file is rejected: {}", e))?;
+	let player = Player { port: peppi::game::Port::P1, character: 0, r#type: PlayerType::Human, stocks: 0, costume: 0, team: None, handicap: 0, bitfield: 0, cpu_level: None, offense_ratio: 0.0, defense_ratio: 0.0, model_scale: 0.0, ucf: None, name_tag: None, netplay: None };
+	let start = Start {
+		slippi: peppi::io::slippi::Slippi { version: peppi::io::slippi::Version(0, 1, 0) },
+		bitfield: [0; 4],
+		is_raining_bombs: false,
+		is_teams: false,
+		item_spawn_frequency: 0,
+		self_destruct_score: 0,
+		stage: 0,
+		timer: 0,
+		item_spawn_bitfield: [0; 5],
+		damage_ratio: 0.0,
+		players: vec![],
+		random_seed: 0,
+		bytes: Bytes(vec![]),
+		is_pal: None,
+		is_frozen_ps: None,
+		scene: None,
+		language: None,
+		r#match: None,
+	};
+	let end = End { method: EndMethod::Game, bytes: Bytes(vec![]), lras_initiator: None, players: None };
 	for f in &lay.start.fields {
-		start_val(&game.start, &f.path).ok_or(format!("(oracle) no accessor for Game Start path {}", f.path))?;
-		if let Val::Invalid(m) = want_top(f, &start) {
-			return Err(format!("(oracle) generated block: {} is {}", f.path, m));
-		}
+		start_val(&start, &f.path).ok_or(format!("(oracle) no accessor for Game Start path {}", f.path))?;
 	}
-	let p = game.start.players.first().ok_or("(oracle) the self-check file has no players")?;
 	for path in lay.start.player_fields.iter().map(|f| &f.path).chain(lay.start.tails.iter().map(|t| &t.path)) {
-		player_val(p, path).ok_or(format!("(oracle) no accessor for player path {}", path))?;
+		player_val(&player, path).ok_or(format!("(oracle) no accessor for player path {}", path))?;
 	}
-	let e = game.end.as_ref().ok_or("(oracle) the self-check file has no Game End")?;
 	for f in &lay.end.fields {
-		end_val(e, &f.path).ok_or(format!("(oracle) no accessor for Game End path {}", f.path))?;
+		end_val(&end, &f.path).ok_or(format!("(oracle) no accessor for Game End path {}", f.path))?;
+	}
+	// a generated block of every length class decodes without Invalid
+	for (_, len) in &lay.start.classes {
+		let raw = start_block(lay, *len, "HCDE", true, 0)?;
+		for f in &lay.start.fields {
+			if let Val::Invalid(m) = want_top(f, &raw) {
+				return Err(format!("(oracle) generated block: {} is {}", f.path, m));
+			}
+		}
+		for port in 0..lay.start.ports {
+			for t in lay.start.tails.iter().filter(|t| raw.len() >= t.min_len) {
+				if let Val::Invalid(m) = decode(&t.ty, &raw, t.offset(port)) {
+					return Err(format!("(oracle) generated block: port {} {} is {}", port + 1, t.path, m));
+				}
+			}
+		}
 	}
 	Ok(lay)
 }
